@@ -167,7 +167,7 @@ PROPS["C07"] = {
              "mode 'writes': between page fetches another client inserts / deletes matching and non-matching rows. Oracles: every page <= page_size (0 => 100); every row alive for the whole iteration is returned, no content more often than it existed; "
              "without a concurrent matching write the pages are exactly ceil(n/size) (token empty <=> last page) and the multiset is exact; mode 'token': malformed page tokens are answered 4xx / InvalidArgument-class; one run in twelve uses 999..5003 rows with page sizes 500..7000; mode 'traverse' (the internal consumers of paging): a node with 99..3001 subject sets, exactly one of which - at a chosen position in storage order, biased to multiples of 100 / 1000 and the ends - contains the subject: the check must find it, must not allow an outsider, and the listing must return every row once. "
              "non-trivial = iteration needed >= 2 pages (mode token: every run); distinct = hash of (query, n, page size, transport, interleaving)."),
-    "probes": ["probe_boundary_size", "probe_100_plus_rows", "probe_default_page_size", "interleaved_matching_insert", "interleaved_matching_delete", "interleaved_other_write", "malformed_tokens_rest", "malformed_tokens_grpc", "probe_thousands_of_rows", "probe_wide_node_over_1000", "traverse_cases"],
+    "probes": ["probe_boundary_size", "probe_100_plus_rows", "probe_default_page_size", "interleaved_matching_insert", "interleaved_matching_delete", "interleaved_other_write", "malformed_tokens_rest", "malformed_tokens_grpc", "lookalike_tokens", "probe_fully_qualified_query_over_copies", "probe_thousands_of_rows", "probe_wide_node_over_1000", "traverse_cases"],
     "real": REAL_S, "stub": STUB_S,
     "fault_kinds": {},
     "assumptions": ["rows with equal content are indistinguishable in API output, so exactly-once is checked per content as a multiset bound"],
@@ -292,7 +292,7 @@ PROPS["C14"] = {
              "mode 'handlers' (tier E): the requests are REST requests through the real check / expand / list handlers (on the L1-wrapped dependencies, private routers) inside the bubble, among them 2-3 checks of the SAME tuple with different max-depth values on a chain where depth decides; every (status, body) must equal the one obtained alone. "
              "mode 'race' (-race build, GOMAXPROCS=1): a FRESH registry per run (no member warmed up) receives a burst of 3-8 concurrent read and write requests through the real routers and gRPC servers; the race detector works on happens-before, so unordered accesses are flagged without real parallelism; "
              "a report halts the worker and is confirmed in a fresh process. non-trivial = the request set mixes at least two kinds (race: every burst); distinct = hash of (config, tuples, requests)."),
-    "probes": ["probe_requests_interleaved", "kind_check", "kind_batch", "kind_expand", "kind_list", "concurrent_requests", "probe_shared_group_gadget", "probe_duplicate_requests", "stragglers_completed_late", "probe_depth_decides", "handler_requests"],
+    "probes": ["probe_one_request_cancelled", "probe_cancelled_request_has_twin", "probe_requests_interleaved", "kind_check", "kind_batch", "kind_expand", "kind_list", "concurrent_requests", "probe_shared_group_gadget", "probe_duplicate_requests", "stragglers_completed_late", "probe_depth_decides", "handler_requests"],
     "real": REAL_E + ["race mode: real routers, gRPC servers over bufconn, freshly constructed registry, Go race detector"], "stub": STUB_E,
     "fault_kinds": {},
     "assumptions": ["the race clause is the weakest part: incidental mutex edges can hide a race in one order; absence of a report is weak evidence", "single-request answers are schedule-independent for the generated configurations (no && / !)"],
